@@ -1,6 +1,8 @@
 package crash
 
 import (
+	"os"
+	"runtime/debug"
 	"fmt"
 	"math/rand/v2"
 	"sync"
@@ -89,6 +91,9 @@ func (fi *faultInjector) MaybeError(op errorfs.Op) error {
 		fi.firedBy = map[string]int64{}
 	}
 	fi.firedBy[fmt.Sprintf("%s:%v", fi.rule.Name, op.Kind)]++
+	if os.Getenv("VERIF_FAULT_STACKS") != "" {
+		fmt.Printf("INJECTED %s %v %s\n%s\n", fi.rule.Name, op.Kind, op.Path, debug.Stack())
+	}
 	return errorfs.ErrInjected
 }
 
